@@ -351,7 +351,7 @@ impl Harness for C13 {
         // ---- exhaustive lattices: every SEQUENCE of n points (order matters: scan order decides the
         // numbering of the clusters and which cluster a border point joins)
         //                 lattice          f64 n_max (q,t)  f32 n_max (q,t)
-        let lattices = [(Lattice::Line5, (6, 8), (4, 6)), (Lattice::Grid3, (4, 5), (3, 4)), (Lattice::Cube3, (4, 5), (0, 4)), (Lattice::Cube4, (3, 4), (0, 3))];
+        let lattices = [(Lattice::Line5, (6, 8), (4, 6)), (Lattice::Grid3, (4, 6), (3, 4)), (Lattice::Cube3, (4, 5), (0, 4)), (Lattice::Cube4, (3, 4), (0, 3))];
         let mut lattice_bounds = Vec::new();
         for width in [64u8, 32] {
             for (lat, n64, n32) in lattices {
@@ -466,21 +466,32 @@ impl Harness for C13 {
             }
         }
         let weyl_ns: &[usize] = if t { &[2, 5, 10, 20, 40, 80, 150] } else { &[5, 20] };
+        let variants = if t { 3usize } else { 1 };
         for &n in weyl_ns {
             for d in 1..=4usize {
                 for k in 0..=3usize {
                     if !t && k == 2 {
                         continue;
                     }
-                    let shift = (seed as usize % 8) * 1000;
-                    jobs.push(Job::new(
-                        format!("weyl-d{}-n{}-k{}", d, n, k),
-                        json!({"kind": "structured", "fam": "weyl", "d": d, "n": n, "k": k, "shift": shift, "orders": orders, "ms_cap": MS_MAX}),
-                    ));
-                    structured += orders.len();
+                    for var in 0..variants {
+                        // start index of the Kronecker sequence: rotated by the seed
+                        let shift = (seed as usize % 8) * 1000 + var * 211;
+                        jobs.push(Job::new(
+                            format!("weyl-d{}-n{}-k{}-v{}", d, n, k, var),
+                            json!({"kind": "structured", "fam": "weyl", "d": d, "n": n, "k": k, "shift": shift, "orders": orders, "ms_cap": MS_MAX}),
+                        ));
+                        structured += orders.len();
+                    }
                 }
             }
         }
+        // simplest first: small lattice jobs, then multisets and structured sets, the largest
+        // sequence enumerations last (a wall budget that runs out then cuts those)
+        jobs.sort_by_key(|j| match j.kind() {
+            "lattice" if j.params["prefix"].as_array().map(|p| p.is_empty()).unwrap_or(true) => 0,
+            "lattice" => 2,
+            _ => 1,
+        });
         let tf = data::seed_transform(seed);
         for j in jobs.iter_mut() {
             j.params["tf_scale"] = json!(tf.0);
@@ -587,27 +598,29 @@ impl Harness for C13 {
     }
 }
 
+/// Non-vacuity floors: roughly a third of what the unchanged tree shows at seed 0 (NOTES.md). Only
+/// oracle-measured properties of the INPUTS have floors; counters that exist only because of a
+/// defect (cover-tree panics, backend-dependent border labels) have none, so that the floors still
+/// hold once the defects are fixed (checked on a scratch copy with the four suggested fixes).
 fn floors(thorough: bool) -> Vec<(&'static str, u64)> {
-    let k = if thorough { 10 } else { 1 };
+    let f = |q: u64, t: u64| if thorough { t } else { q };
     vec![
-        ("both_backends_compared", 100_000 * k),
-        ("some_distance_equals_eps", 50_000 * k),
-        ("duplicate_points", 50_000 * k),
-        ("two_or_more_clusters", 20_000 * k),
-        ("all_noise", 10_000 * k),
-        ("one_cluster_all_core", 10_000 * k),
-        ("has_border_point", 10_000 * k),
-        ("noise_next_to_clusters", 5_000 * k),
-        ("border_point_between_two_clusters", 100 * k),
-        ("border_point_scanned_before_its_cluster", 5_000 * k),
-        ("border_point_scanned_first_and_reached_via_secondary", 500 * k),
-        ("core_with_exactly_min_samples", 10_000 * k),
-        ("border_label_differs_between_backends", 20 * k),
-        ("covertree_fit_panics", 50),
-        ("predict_rows_without_neighbours", 100_000 * k),
-        ("predict_rows_plurality_tie", 10_000 * k),
-        ("predict_rows_noise_dominates", 10_000 * k),
-        ("predict_rows_cluster_wins", 100_000 * k),
+        ("both_backends_compared", f(1_000_000, 20_000_000)),
+        ("some_distance_equals_eps", f(200_000, 8_000_000)),
+        ("duplicate_points", f(700_000, 20_000_000)),
+        ("two_or_more_clusters", f(150_000, 1_500_000)),
+        ("all_noise", f(150_000, 5_000_000)),
+        ("one_cluster_all_core", f(400_000, 10_000_000)),
+        ("has_border_point", f(80_000, 3_000_000)),
+        ("noise_next_to_clusters", f(120_000, 2_000_000)),
+        ("border_point_between_two_clusters", f(100, 15_000)),
+        ("border_point_scanned_before_its_cluster", f(40_000, 1_000_000)),
+        ("border_point_scanned_first_and_reached_via_secondary", f(10_000, 300_000)),
+        ("core_with_exactly_min_samples", f(300_000, 6_000_000)),
+        ("predict_rows_without_neighbours", f(10_000_000, 100_000_000)),
+        ("predict_rows_plurality_tie", f(500_000, 5_000_000)),
+        ("predict_rows_noise_dominates", f(8_000_000, 200_000_000)),
+        ("predict_rows_cluster_wins", f(25_000_000, 500_000_000)),
     ]
 }
 
